@@ -705,6 +705,84 @@ def gen_twin_history(rng, n_pairs):
     return [("expr", ("raw", t)) for t in hist]
 
 
+# Reshape with the -1 wildcard ("half the size of the source") in a shape that outlives the call: held in a
+# variable, aliased, a literal in a function body, a repeated text (oracles only)
+SHAPES = ['[-1 2]', '[2 -1]', '[-1 3]', '[-1]', '[2 2]', '[3 -1]', '[-1 -1]', '[2 3]']
+SOURCES = ['!10', '!6', '!8', '!12', '[1 2 3 4]', '!4', '"abcdef"', '"abcdefgh"']
+
+
+def gen_reshape_history(rng, length):
+    hist = [f"a::{rng.choice(SHAPES)}", f"b::{rng.choice(SOURCES)}"]
+    for _ in range(length):
+        r = rng.random()
+        sv = rng.choice(["a", "c"])
+        if r < 0.2 and hist:
+            hist.append(rng.choice(hist))
+        elif r < 0.3:
+            hist.append(f"{sv}::{rng.choice(SHAPES)}")
+        elif r < 0.38:
+            hist.append(rng.choice(["c::a", "a::c"]))
+        elif r < 0.48:
+            hist.append(f"b::{rng.choice(SOURCES)}")
+        elif r < 0.62:
+            hist.append(f"{sv}:^{rng.choice(SOURCES + ['b', 'b'])}")
+        elif r < 0.70:
+            hist.append(f"d::{sv}:^b")
+        elif r < 0.78:
+            hist.append(rng.choice(["a", "c", "b"]))
+        elif r < 0.86:
+            hist.append(f"{rng.choice(SHAPES)}:^b")
+        elif r < 0.93:
+            hist.append(rng.choice(["f", "g"]) + "::{" + rng.choice(SHAPES) + ":^x}")
+        else:
+            hist.append(f"{rng.choice(['f', 'g'])}({rng.choice(SOURCES + ['b'])})")
+    return [("expr", ("raw", t)) for t in hist]
+
+
+# exact (Python int) versus wrapping (numpy int64) arithmetic: an arithmetic node under a verb the compiler
+# does not handle, evaluated with operand classes that change between evaluations (oracles only)
+BIGS = ['10000000000', '4611686018427387904', '3037000500', '99999999999', '7', '2', '0']
+SCALAR_SRC = ['a@0', '*a', '+/a', 'a@1', '|/a']
+WRAP_VERBS = ['$', ',', '#$', '!0*', '$1+']
+ARITH = ['*', '+', '-']
+
+
+def gen_bigint_history(rng, length):
+    body = lambda l, r: f"{rng.choice(WRAP_VERBS)}{l}{rng.choice(ARITH)}{r}"
+    hist = ["a::[3 5 7]", f"b::{rng.choice(BIGS)}", f"c::{rng.choice(BIGS)}",
+            "f::{" + body("x", "y") + "}", "g::{" + body("x", "x") + "}"]
+    tops = [body("b", "c"), body("b", "b"), body("c", "d")]
+    for _ in range(length):
+        r = rng.random()
+        v = rng.choice(["b", "c", "d"])
+        if rng.random() < 0.25:
+            # the same node first with a numpy scalar / string operand, then with big Python ints
+            odd = rng.choice(SCALAR_SRC + ['"ab"'])
+            big = rng.choice(BIGS[:4])
+            if rng.random() < 0.5:
+                hist += [f"f({odd};{rng.choice(BIGS)})", f"f({big};{big})"]
+            else:
+                t = rng.choice(tops[:2])
+                hist += [f"b::{odd}", f"c::{odd}", t, f"b::{big}", f"c::{big}", t]
+            continue
+        if r < 0.15:
+            hist.append(rng.choice(hist))
+        elif r < 0.30:
+            hist.append(f"{v}::{rng.choice(BIGS)}")
+        elif r < 0.42:
+            hist.append(f"{v}::{rng.choice(SCALAR_SRC)}")
+        elif r < 0.48:
+            hist.append(f'{v}::{rng.choice(["""\"ab\"""", "[1 2]", "2.5"])}')
+        elif r < 0.68:
+            hist.append(rng.choice(tops))
+        elif r < 0.74:
+            hist.append(f"d::{rng.choice(tops)}")
+        else:
+            arg = lambda: rng.choice(BIGS + SCALAR_SRC + ["b", "c", "d", '"ab"'])
+            hist.append(f"f({arg()};{arg()})" if rng.random() < 0.6 else f"g({arg()})")
+    return [("expr", ("raw", t)) for t in hist]
+
+
 def scripted_histories():
     """hand-made histories the property description names"""
     A_ = lambda n, e: ("expr", assign(n, e))
@@ -773,6 +851,14 @@ def scripted_histories():
                 R_('+/a*2'), R_('+/a*2.0'), R_('c::5;c-0'), R_('b-0.0')])
     out.append([R_('a::[1 2 3]'), R_('a*2.0'), R_('a*2'), R_('f::{x+1}'), R_('f(1)'), R_('g::{x+1.0}'), R_('g(3)'),
                 R_('f(3)'), R_('a=1'), R_('a=1.0'), R_('a^2'), R_('a^2.0'), R_('a%2.0'), R_('a%2')])
+    # Reshape must not rewrite the -1 of a shape that outlives the call
+    out.append([R_('a::[-1 2]'), R_('c::a'), R_('a:^!10'), R_('a'), R_('c'), R_('a:^!6'), R_('f::{[-1 2]:^x}'),
+                R_('f(!10)'), R_('f(!6)'), R_('b::!8'), R_('[2 -1]:^b'), R_('b::!12'), R_('[2 -1]:^b')])
+    # a node that once saw a numpy scalar or a string must not stay on the wrapping verb path
+    out.append([R_('f::{$x*y}'), R_('a::[3 5 7]'), R_('f(a@0;a@1)'), R_('f(10000000000;10000000000)'),
+                R_('g::{$x*y}'), R_('g("ab";2)'), R_('g(10000000000;10000000000)')])
+    out.append([R_('a::[3 5]@0;b::2'), R_(',a*b'), R_('a::10000000000;b::a'), R_(',a*b'), R_('$a+b'),
+                R_('b::"ab"'), R_('$a+b'), R_('b::4611686018427387904;a::b'), R_('$a+b'), R_(',a*b')])
     # dictionaries are shared and updated in place; dictionary literals are fresh each time
     out.append([A_("t", ("dlit", [(1, 2)])), A_("d", var("t")), E_(op2("join", var("t"), op2("join", lit_int(3), lit_int(4)))),
                 E_(var("d")), A_("t", ("dlit", [(1, 2)])), E_(var("t")), E_(var("d")), E_(op2("find", var("d"), lit_int(3)))])
@@ -942,7 +1028,9 @@ def run(ctx):
                 "on variables, repeated identical texts, variables rebound to another kind, dictionary updates, module "
                 "switches; oracle-only histories over object arrays: ragged rows, rows with symbols/strings/characters, "
                 "lists of strings, depth-3 lists, amended directly and through take/drop/index/reverse; oracle-only histories of "
-                "int/real twin texts — compilable expressions differing only in 2 vs 2.0 — compared with kinds exact); each statement re-run in a fresh interpreter loaded with a copy of the pre-state and in a "
+                "int/real twin texts — compilable expressions differing only in 2 vs 2.0 — compared with kinds exact; Reshape with -1 wildcard shapes held in variables / aliases / function-body "
+                "literals / repeated texts; exact-vs-wrapping integer arithmetic under uncompiled verbs with big, "
+                "numpy-scalar and string operands); each statement re-run in a fresh interpreter loaded with a copy of the pre-state and in a "
                 "cache-cleared interpreter; distinct = distinct histories; non-trivial = at least two statements")
     ctx.assumptions += [
         "Python-side mutation of arrays obtained through klong[name] is outside the property",
@@ -975,6 +1063,13 @@ def run(ctx):
             run_history(ctx, h, None, "history-twin")
             if s < 2:
                 ctx.sample(dict(kind="history-twin", texts=[stmt_text(x) for x in h]))
+        for s in range(100 if quick else 1500):
+            h = gen_reshape_history(ctx.rng, ctx.rng.randrange(4, 10 if quick else 14))
+            run_history(ctx, h, None, "history-reshape")
+            h = gen_bigint_history(ctx.rng, ctx.rng.randrange(4, 10 if quick else 14))
+            run_history(ctx, h, None, "history-bigint")
+            if s < 1:
+                ctx.sample(dict(kind="history-bigint", texts=[stmt_text(x) for x in h]))
         for s in range(150 if quick else 2500):
             h = gen_obj_history(ctx.rng, ctx.rng.randrange(4, 10 if quick else 14))
             run_history(ctx, h, None, "history-obj")
